@@ -420,3 +420,216 @@ def _channel_chunks(vc):
         vc.ensure("chunk[%d]/length" % i, ln == raw.data.hi - raw.data.lo)
         run = run + ln
     vc.ensure("offsets-end-at-len(channel)", run == n)
+
+
+# ---------------------------------------------------------------------------- _read_channel_data for ANY number of chunks
+
+import z3
+from pyvc.sym import _lift
+
+
+class PrefixArr(object):
+    """the receiver's array: `filled` leading entries hold values[base : base+filled] of the channel (ghost view);
+    a store must append to that prefix, in channel order"""
+
+    def __init__(self, capacity, base):
+        self.capacity = capacity
+        self.base = base
+        self.filled = 0
+
+    def sym_len(self):
+        return self.capacity
+
+
+def _prefix_setitem(interp, arr, k, src):
+    from pyvc.interp import SymSlice
+    st = sym.get_state()
+    if not isinstance(k, (slice, SymSlice)) or k.step not in (None, 1) or k.start is None or k.stop is None:
+        raise sym.Unsupported("receiver store at %r" % (k,))
+    if not isinstance(src, Window):
+        raise sym.Unsupported("receiver store of %s" % type(src).__name__)
+    from pyvc.models import trusted
+    trusted("numpy: a[lo:hi] = b copies b elementwise into positions lo..hi-1 (clamped to len(a)) and raises "
+            "ValueError unless len(b) == hi-lo (or b broadcasts)")
+    cap = arr.capacity
+    st.check("safe/receiver-store-bounds-nonnegative", And(k.start >= 0, k.stop >= 0), kind="safe")
+    lo, hi = Min(k.start, cap), Min(k.stop, cap)
+    ln = src.hi - src.lo
+    if not interp.truth(ln == Max(hi - lo, 0)):
+        raise ProgExc(ValueError, "could not broadcast")
+    st.check("receiver/store-appends-to-the-filled-prefix", lo == arr.filled, kind="ensures")
+    st.check("receiver/store-continues-the-channel-window", Implies(ln > 0, src.lo == arr.base + arr.filled),
+             kind="ensures")
+    arr.filled = Ite(ln > 0, hi, arr.filled)
+
+
+def _setup_rcd_all(interp):
+    interp.models[("setitem", PrefixArr)] = _prefix_setitem
+    CUT = z3.Function("CUT", z3.IntSort(), z3.IntSort())
+
+    def get_data_receiver(interp_, f, args, kwargs):
+        st = sym.get_state()
+        ch, nvals = args[0], args[1]
+        lo, hi = st.ghost["window"]
+        st.check("read_channel_data/allocates-exactly-the-window", nvals == hi - lo, kind="call-pre")
+        arr = PrefixArr(nvals, lo)
+        r = Obj(interp_.get("channel_data.NumpyDataReceiver"))
+        r._f.update(path="p", data=arr, scaler_data={}, _data_insert_position=0)
+        st.ghost["receiver"] = r
+        return r
+
+    def read_raw_data_for_channel(interp_, f, args, kwargs):
+        """contract of TdmsReader.read_raw_data_for_channel (proved by harness read_window for any number of
+        segments and chunks): K >= 0 windows; window i is values[CUT(i):CUT(i+1)] with CUT(0) = lo, CUT(K) = hi,
+        CUT(i) <= CUT(i+1) <= hi   (yield obligations chunk-continues / not-reversed / stays-inside-the-request)"""
+        st = sym.get_state()
+        path = args[1]
+        offset = args[2] if len(args) > 2 else kwargs.get("offset", 0)
+        length = args[3] if len(args) > 3 else kwargs.get("length", None)
+        lo, hi = st.ghost["window"]
+        st.check("read_channel_data/asks-the-reader-for-this-channel-and-window",
+                 And(path == "/'g'/'c'", offset == st.ghost["offset"],
+                     (length is None) if st.ghost["length"] is None else (length == st.ghost["length"])),
+                 kind="call-pre")
+        K = st.fresh_int("K")
+        st.assume(K >= 0)
+        st.ghost["K"] = K
+        zlo, zhi, zK = sym.z3int(lo), sym.z3int(hi), sym.z3int(K)
+        st.add_fact(z3.And(CUT(0) == zlo, CUT(zK) == zhi))
+        RC = interp_.get("base_segment.RawChannelDataChunk")
+
+        def item(i):
+            zi_ = sym.z3int(i)
+            st.add_fact(z3.And(CUT(zi_) <= CUT(zi_ + 1), CUT(zi_ + 1) <= zhi, zlo <= CUT(zi_)))
+            c = Obj(RC)
+            c._f.update(data=Window(_lift(CUT(zi_)), _lift(CUT(zi_ + 1)), "values"), scaler_data=None)
+            return c
+        return SymSeq(K, item, "windows")
+
+    interp.contracts_at_calls["nptdms.channel_data:get_data_receiver"] = get_data_receiver
+    interp.contracts_at_calls["nptdms.reader:TdmsReader.read_raw_data_for_channel"] = read_raw_data_for_channel
+    interp.contracts_at_calls["nptdms.reader:TdmsReader.is_index_file_only"] = lambda i, f, a, k: False
+
+    def inv(env, k, st):
+        r = env.vars["channel_data"]
+        lo, hi = st.ghost["window"]
+        c = _lift(CUT(sym.z3int(k)))
+        return [("receiver-position-is-the-number-of-values-delivered", r._data_insert_position == c - lo),
+                ("array-holds-values[lo:CUT(k)]", r.data.filled == c - lo),
+                ("position-within-the-window", And(lo <= c, c <= hi))]
+
+    def havoc_receiver(st, env):
+        r = env.vars["channel_data"]
+        r._f["_data_insert_position"] = st.fresh_int("pos")
+        r._f["data"].filled = st.fresh_int("filled")
+        return r
+    interp.loop_specs[("nptdms.tdms:TdmsChannel._read_channel_data", 0)] = LoopSpec(
+        inv, havoc={"channel_data": havoc_receiver, "__locals__": ("chunk", "scaler_id", "scaler_data")},
+        name="chunks")
+
+
+@harness("read_channel_data_all_chunks", ["tdms.TdmsChannel._read_channel_data",
+                                          "channel_data.NumpyDataReceiver.append_data"],
+         ["C04", "C03", "C10", "C14"], variants=[("length=None", "None"), ("length=int", "int")],
+         setup=_setup_rcd_all,
+         note="for ANY number of chunks delivered by the reader (loop invariant: the receiver holds "
+              "values[lo:CUT(k)] and its insert position is CUT(k)-lo): the returned receiver holds exactly "
+              "values[lo:hi], in order, and is filled to capacity")
+def _rcd_all(vc):
+    st = vc.st
+    n = vc.int("n", lo=0)
+    rd = vc.new("reader.TdmsReader", _file=SFile("d"), _index_file=None)
+    ch = mk_channel(vc, n, _reader=rd)
+    ch._f["_path"] = "/'g'/'c'"
+    vc.interp.contracts_at_calls["nptdms.tdms:TdmsChannel.path"] = lambda i, f, a, kw: "/'g'/'c'"
+    offset = vc.int("offset", lo=0)
+    length = vc.int("length", lo=0) if vc.variant == "int" else None
+    lo, hi = PS.window(offset, length, n)
+    st.ghost["window"] = (lo, hi)
+    st.ghost["offset"], st.ghost["length"] = offset, length
+    vc.cover("non-empty-window-reachable", And(n == 10, offset == 2, hi - lo >= 3))
+    out = vc.call_method(ch, "_read_channel_data", offset, length)
+    vc.ensure("no-exception", out.kind == "ret")
+    if out.kind != "ret":
+        return
+    r = out.value
+    vc.ensure("returns-the-receiver", r is st.ghost.get("receiver"))
+    vc.ensure("filled-to-capacity-with-values[lo:hi]", And(r.data.filled == hi - lo, r.data.base == lo,
+                                                            r.data.capacity == hi - lo))
+    vc.ensure("insert-position-at-the-end", r._data_insert_position == hi - lo)
+
+
+# ---------------------------------------------------------------------------- channel.data_chunks() for ANY number of chunks
+
+def _setup_streams_all(interp):
+    _install_common(interp, scaling=True)
+    CUT = z3.Function("CUT", z3.IntSort(), z3.IntSort())
+
+    def read_channel_data_chunks(interp_, f, args, kwargs):
+        """contract of TdmsChannel._read_channel_data_chunks (reader.read_raw_data_for_channel over the whole
+        channel, harness read_window): K windows values[CUT(i):CUT(i+1)], CUT(0) = 0, CUT(K) = n, nondecreasing"""
+        st = sym.get_state()
+        n = st.ghost["n"]
+        K = st.fresh_int("K")
+        st.assume(K >= 0)
+        st.ghost["K"] = K
+        st.add_fact(z3.And(CUT(0) == 0, CUT(sym.z3int(K)) == sym.z3int(n)))
+        RC = interp_.get("base_segment.RawChannelDataChunk")
+
+        def item(i):
+            zi_ = sym.z3int(i)
+            st.add_fact(z3.And(CUT(zi_) <= CUT(zi_ + 1), CUT(zi_ + 1) <= sym.z3int(n), 0 <= CUT(zi_)))
+            c = Obj(RC)
+            c._f.update(data=Window(_lift(CUT(zi_)), _lift(CUT(zi_ + 1)), "values"), scaler_data=None)
+            return c
+        return SymSeq(K, item, "windows")
+    interp.contracts_at_calls["nptdms.tdms:TdmsChannel._read_channel_data_chunks"] = read_channel_data_chunks
+
+    def inv(env, k, st):
+        return [("channel_offset-is-the-number-of-values-delivered",
+                 env.vars["channel_offset"] == _lift(CUT(sym.z3int(k))))]
+    interp.loop_specs[("nptdms.tdms:TdmsChannel.data_chunks", 0)] = LoopSpec(
+        inv, havoc={"channel_offset": "int", "__locals__": ("raw_data_chunk",)}, name="chunks")
+
+    def on_yield(qual, value, env):
+        if qual != "nptdms.tdms:TdmsChannel.data_chunks":
+            return
+        st = sym.get_state()
+        k = env.vars["__k__"]
+        c = _lift(CUT(sym.z3int(k)))
+        c1 = _lift(CUT(sym.z3int(k) + 1))
+        st.check("yield/chunk-offset-is-the-running-count-of-values", value.offset == c, kind="yield")
+        ln = interp.models[len](interp, value)
+        st.check("yield/chunk-length-is-the-raw-chunk's", ln == c1 - c, kind="yield")
+        d = interp.getitem(value, slice(None, None, None))
+        st.check("yield/chunk-data-is-the-scaled-window-of-the-channel",
+                 isinstance(d, Window) and d.tag == "scaled" and interp.truth(same_window(d, c, c1)), kind="yield")
+        st.ghost["yields"] = st.ghost.get("yields", 0) + 1
+    interp.yield_hook = on_yield
+
+
+class ScalingModel(object):
+    """channel._scaling: contract of MultiScaling.scale (harness multi_scaling_eval): elementwise over the window"""
+
+    def scale(self, raw):
+        d = raw.data
+        return Scaled(d.lo, d.hi, DT)
+
+
+@harness("channel_data_chunks_all", ["tdms.TdmsChannel.data_chunks", "tdms.ChannelDataChunk.__init__",
+                                     "tdms.ChannelDataChunk.__len__", "tdms.ChannelDataChunk._data",
+                                     "tdms.ChannelDataChunk.__getitem__", "base_segment.RawChannelDataChunk.__len__"],
+         ["C03", "C05", "C14"], setup=_setup_streams_all,
+         note="for ANY number of chunks: chunk k carries offset = values delivered before it and the scaled window "
+              "values[CUT(k):CUT(k+1)] (loop invariant on channel_offset; obligations at the yield)")
+def _channel_chunks_all(vc):
+    st = vc.st
+    n = vc.int("n", lo=0)
+    st.ghost["n"] = n
+    ch = mk_channel(vc, n)
+    ch._f["_cached_prop__scaling"] = ScalingModel()
+    vc.interp.contracts_at_calls["nptdms.tdms:TdmsChannel.name"] = lambda i, f, a, kw: "c"
+    g = vc.call_method(ch, "data_chunks")
+    out = vc.drain(g.value)
+    vc.ensure("no-exception", out.kind == "ret")
+    vc.cover("stream-end-reachable-with-data", n == 7)
